@@ -1082,6 +1082,11 @@ func (f *Frame) frameFact1(k, hb, ha, alloc, guard string, modObjs []string) {
 			ex = append(ex, fmt.Sprintf("(not (inslice p %s))", m[6:]))
 			continue
 		}
+		if strings.HasPrefix(m, "type:") {
+			// every object allocated as this type may have changed
+			ex = append(ex, fmt.Sprintf("(not (= (objtype (pobj p)) %s))", m[5:]))
+			continue
+		}
 		ex = append(ex, fmt.Sprintf("(not (= (pobj p) %s))", m))
 	}
 	cond = And(append([]string{"(not (= p nil))", cond}, ex...)...)
@@ -1096,6 +1101,10 @@ func (f *Frame) frameFact1(k, hb, ha, alloc, guard string, modObjs []string) {
 		for _, m := range modObjs {
 			if strings.HasPrefix(m, "slice:") {
 				sex = append(sex, fmt.Sprintf("(slicesdisjoint s %s)", m[6:]))
+				continue
+			}
+			if strings.HasPrefix(m, "type:") {
+				sex = append(sex, fmt.Sprintf("(not (= (objtype (pobj (sbase s))) %s))", m[5:]))
 				continue
 			}
 			sex = append(sex, fmt.Sprintf("(not (= (pobj (sbase s)) %s))", m))
